@@ -449,6 +449,31 @@ def _run(ctx):
                      'pecan.expose method without '
                      'wrap_pecan_controller_exception', ctx.loc(f))
 
+    # ---- R9 acl.enforce always asks the policy engine ----------------------
+    r9 = ctx.rule('R9', 'acl.enforce hands every request to the policy '
+                  'engine with the caller\'s identity, whatever the '
+                  'configuration', 'GD-exact')
+    ef = prog.func('mistral.api.access_control.enforce')
+    ecfg = ctx.cfg(ef)
+    au = [(n, c) for n, c in ecfg.calls(
+        lambda c: U.call_name(c) == 'authorize')]
+    rets = [x for x in ecfg.nodes if x.kind == 'stmt' and
+            isinstance(x.ast, ast.Return)]
+    oke = len(au) == 1 and not U.guard_atoms(ecfg, au[0][0]) and \
+        len(rets) == 1 and rets[0] is au[0][0]
+    if oke:
+        c = au[0][1]
+        kw = {k.arg: norm(k.value) for k in c.keywords}
+        oke = norm(c.args[0]) == ef.params[0] and \
+            kw.get('do_raise') == 'do_raise' and kw.get('exc') == 'exc'
+    r9.check(oke, ctx.construct(ef, extra='authorize on every path'),
+             'acl.enforce can return without asking the policy engine '
+             '(returns: %d, conditions on authorize: %s): under that '
+             'condition every controller\'s check is a no-op'
+             % (len(rets), [(norm(a), t) for n_, _c in au
+                            for a, t in U.guard_atoms(ecfg, n_)]),
+             ctx.loc(ef))
+
     # ---- R7 admin identity -----------------------------------------------
     r7 = ctx.rule('R7', 'admin status comes from an exact role match and '
                   'reaches the policy engine unchanged', 'GD')
@@ -574,18 +599,26 @@ def documented_moves(ctx, r6):
     cd = prog.func(put.qname + '.<locals>._compute_delta')
     cfg2 = ctx.cfg(cd)
     ks, kd = "delta.get('state')", "delta.get('description')"
+    kin = "'description' in delta"
     IN2, keys2 = sd.analyze(
-        cfg2, cd, [(ks, (None, OBJ)), (kd, (None, OBJ))],
+        cfg2, cd, [(ks, (None, OBJ)), (kd, (None, '', OBJ)),
+                   (kin, (True, False))],
         alias={"delta['state']": ks, "delta['description']": kd})
     writes = [(n, c) for n, c in cfg2.calls()
               if U.call_name(c) and U.call_name(c).startswith('update_')]
     if not writes:
         raise AnalysisError('C16.R6: no update_* call in _compute_delta')
     for n, c in writes:
-        both = [v for v in IN2[n.id] if v[0] == OBJ and v[1] == OBJ]
+        # "description given" is a presence fact, not a truthiness fact: an
+        # empty description sent together with a state is still both
+        both = [v for v in IN2[n.id]
+                if v[0] == OBJ and (v[1] is not None and v[2] or
+                                    v[1] == OBJ)]
         r6.check(not both, ctx.construct(cd, c),
-                 'write reachable with both description and state set',
-                 ctx.loc(cd, c))
+                 'write reachable with both description and state given '
+                 '(state, description, description present) = %s: the '
+                 'refusal tests truthiness, the write tests presence'
+                 % (both[:1],), ctx.loc(cd, c))
 
     # -- ExecutionsController.delete -------------------------------------
     dl = prog.func(
